@@ -208,6 +208,21 @@ def read_folder_facts():
     return {"readdirCountMatchesEntries": ok}
 
 
+def fixed_width_facts():
+    """No method of SFTPServer (the response builders _response, _send_status, _read_folder, _check_file, … and
+    _process itself) calls Message.add() or add_adaptive_int(): those write an integer >= 0xff000000 as 0xff + mpint,
+    which would turn a fixed-width field (request id, count, code) into something else for large values."""
+    import paramiko.sftp_server as mod
+
+    tree = ast.parse(inspect.getsource(mod))
+    bad = []
+    for cls in [n for n in tree.body if isinstance(n, ast.ClassDef) and n.name == "SFTPServer"]:
+        for c in ast.walk(cls):
+            if isinstance(c, ast.Call) and isinstance(c.func, ast.Attribute) and c.func.attr in ("add", "add_adaptive_int"):
+                bad.append(c.lineno)
+    return {"responsesUseFixedWidthFields": not bad, "lines": bad}
+
+
 def lean_source():
     consts, branches, else_types, named = generate()
     pcounts, else_counts, helper_counts = path_counts()
@@ -243,6 +258,10 @@ def lean_source():
              "list, one (filename, longname, attrs) triple per element, unconditionally (AST) -/")
     L.append("def readdirCountMatchesEntries : Bool := %s" % (
         "true" if read_folder_facts()["readdirCountMatchesEntries"] else "false"))
+    L.append("/-- no method of SFTPServer calls Message.add()/add_adaptive_int(): request ids, counts and codes are written "
+             "with add_int (4 bytes) whatever their value (AST) -/")
+    L.append("def responsesUseFixedWidthFields : Bool := %s" % (
+        "true" if fixed_width_facts()["responsesUseFixedWidthFields"] else "false"))
     facts = async_request_facts()
     L.append("/-- SFTPClient._async_request: the packet is sent outside the region that holds self._lock (AST) -/")
     L.append("def sendOutsideLock : Bool := %s" % ("true" if facts["sendOutsideLock"] else "false"))
